@@ -4,6 +4,7 @@ mod elem;
 mod families;
 mod gen;
 mod gen2;
+mod gen3;
 mod job;
 mod known;
 mod oracle;
